@@ -38,7 +38,8 @@ TableS(kt,vt,mn) == N("tables",kt,vt,mn)   \* table whose keys must be strictly 
 IntMap(vt) == N("intmap",vt,0,0)       \* {* uint => vt}
 ArrV(ts) == N("arrv",ts,0,0)           \* array group choice selected by its first element (uint): ts[v+1] is the schema of variant v
 AnyUInt == N("uint",0,0,0)
-NF(t, why) == N("nf",t,why,0)          \* t, but not what a freshly built value is written as (profile "fresh" rejects with reason why)
+U32 == N("u32",0,0,0)                  \* uint that fits 32 bits
+NF(t, why) == N("nf",<<t, why>>,0,0)          \* t, but not what a freshly built value is written as (profile "fresh" rejects with reason why)
 MdInt == N("mdint",0,0,0)              \* metadatum integer; fresh: >= -2^63 (the JSON forms use i64 / u64)
 BigTag(n) == N("bigtag",n,0,0)         \* #6.2 / #6.3 (bounded bytes); fresh: only for magnitudes that need more than 8 bytes, no leading zero
 Constr102(t) == N("constr102",t,0,0)   \* #6.102([uint, plist]); fresh: only for alternatives > 127
@@ -60,6 +61,7 @@ Conf(S, s, it, P, path) ==
   CASE s.k = "ref" -> Conf(S, S[s.a], it, P, Append(path, s.a))
     [] s.k = "any" -> OK
     [] s.k = "uint" -> IF it.mt = 0 /\ Short(it,P) THEN OK ELSE Bad(path, "uint")
+    [] s.k = "u32" -> IF it.mt = 0 /\ Short(it,P) /\ Len(ArgN(it)) <= 4 THEN OK ELSE Bad(path, "u32")
     [] s.k = "posuint" -> IF it.mt = 0 /\ Short(it,P) /\ ArgN(it) # <<>> THEN OK ELSE Bad(path, "posuint")
     [] s.k = "int" -> IF it.mt \in {0,1} /\ Short(it,P) THEN OK ELSE Bad(path, "int")
     [] s.k = "nzint" -> IF it.mt \in {0,1} /\ Short(it,P) /\ (it.mt = 1 \/ ArgN(it) # <<>>) THEN OK ELSE Bad(path, "nzint")
@@ -125,7 +127,7 @@ Conf(S, s, it, P, path) ==
                        ELSE LET v == Small(it.kids[1].arg) IN
                             IF v < 0 \/ v >= Len(s.a) THEN Bad(path, "variant-unknown")
                             ELSE Conf(S, s.a[v + 1], it, P, Append(path, v))
-    [] s.k = "nf" -> IF P = "fresh" THEN Bad(path, s.b) ELSE Conf(S, s.a, it, P, path)
+    [] s.k = "nf" -> IF P = "fresh" THEN Bad(path, s.a[2]) ELSE Conf(S, s.a[1], it, P, path)
     [] s.k = "mdint" -> IF ~(it.mt \in {0,1} /\ Short(it,P)) THEN Bad(path, "int")
                         ELSE IF P = "fresh" /\ it.mt = 1 /\ Len(ArgN(it)) = 8 /\ ArgN(it)[8] >= 128 THEN Bad(path, "md-int-below-i64") ELSE OK
     [] s.k = "bigtag" -> IF ~(it.mt = 6 /\ Small(it.arg) = s.a /\ Short(it,P)) THEN Bad(path, "tag")
